@@ -106,6 +106,8 @@ def run_trace(tid, shape, events, pkg, classes):
             sel.periodic()
         elif k == "disable":
             sel.disable()
+        elif k == "endcomp":
+            sel.endCompetition()
 
     events = [{k: v for k, v in ev.items() if k != "x"} for ev in events]
     i = 0
@@ -169,7 +171,8 @@ def run_block(sel, block, steps, simple):
         for ev in iters[n][1:-1]:
             simple(ev)
             steps.append({"in": ev, "out": {"cb": cut()}})
-        if n == len(iters) - 1:
+        if n == len(iters) - 1 and not any(ev["e"] == "endcomp" for ev in iters[n]):
+            # (after endCompetition() the loop ends by itself)
             DS.setEnabled(False)
             DS.notifyNewData()
         state["t"] = wpilib.RobotController.getFPGATime()
@@ -195,14 +198,17 @@ def run_block(sel, block, steps, simple):
     steps.append({"in": block[-1], "out": {"cb": cut()}})
 
 
-def run_block_events(rng):
+def run_block_events(rng, endcomp=False):
     """one autonomous period through run(): see run_block()"""
     p = rng.choice([20000, 20000, 5000, 15625])
     evs = [{"e": "start", "via": "run"}]
-    for _ in range(rng.choice([1, 2, 4, 7])):
+    n = rng.choice([1, 2, 4, 7])
+    for i in range(n):
         evs.append({"e": "periodic", "via": "run"})
         r = rng.random()
-        if r < 0.2:
+        if endcomp and i == n - 1:
+            evs.append({"e": "endcomp", "via": "run"})       # endCompetition() from iter_fn / another thread: last iteration
+        elif r < 0.2:
             evs.append({"e": "disable", "via": "run"})          # iter_fn (or the mode itself) calls disable() mid-run
         elif r < 0.3:
             evs.append({"e": "str", "s": rng.choice(["", "m1", "m2"]), "via": "run"})
@@ -239,6 +245,12 @@ def random_events(rng):
             evs.append({"e": "periodic"})
             if rng.random() < 0.7:
                 evs.append({"e": "tick", "d": 20000})
+    # the program is shut down while a mode may be enabled: the mode still gets its on_disable()
+    r = rng.random()
+    if r < 0.15:
+        evs += run_block_events(rng, endcomp=True)
+    elif r < 0.3:
+        evs += [{"e": "start"}, {"e": "periodic"}, {"e": "endcomp"}] + ([{"e": "periodic"}] if r < 0.2 else []) + [{"e": "disable"}]
     return evs
 
 
